@@ -112,6 +112,52 @@ func exprStr(e ast.Expr) string {
 	return "?"
 }
 
+// durationMs evaluates `N * time.Second`, `time.Millisecond * N`, a parenthesised one, or the name of a constant of the file
+// declared as one of these (0: not such an expression)
+func durationMs(e ast.Expr, consts map[string]ast.Expr, depth int) int {
+	if depth > 4 {
+		return 0
+	}
+	switch x := e.(type) {
+	case *ast.ParenExpr:
+		return durationMs(x.X, consts, depth+1)
+	case *ast.Ident:
+		if c, ok := consts[x.Name]; ok {
+			return durationMs(c, consts, depth+1)
+		}
+	case *ast.BinaryExpr:
+		if x.Op != token.MUL {
+			return 0
+		}
+		num, unit := x.X, x.Y
+		if _, ok := num.(*ast.BasicLit); !ok {
+			if _, ok := x.Y.(*ast.BasicLit); ok {
+				num, unit = x.Y, x.X
+			}
+		}
+		if id, ok := num.(*ast.Ident); ok {
+			if c, ok := consts[id.Name]; ok {
+				num = c
+			}
+		}
+		bl, ok := num.(*ast.BasicLit)
+		if !ok {
+			return 0
+		}
+		n, err := strconv.Atoi(bl.Value)
+		if err != nil {
+			return 0
+		}
+		switch exprStr(unit) {
+		case "time.Second":
+			return n * 1000
+		case "time.Millisecond":
+			return n
+		}
+	}
+	return 0
+}
+
 func astClientFacts(file, sendFn, handlerFn string) (clientFacts, error) {
 	var cf clientFacts
 	handlerChecks := false
@@ -119,6 +165,47 @@ func astClientFacts(file, sendFn, handlerFn string) (clientFacts, error) {
 	f, err := parser.ParseFile(fset, file, nil, 0)
 	if err != nil {
 		return cf, err
+	}
+	// constants of the file (a time-out given a name), helpers that only make a channel (`return make(chan T, n)`), and the
+	// plain functions of the file by name (a send moved into a helper is looked at where it is)
+	consts := map[string]ast.Expr{}
+	chanMakers := map[string]int{}
+	funcs := map[string]*ast.FuncDecl{}
+	for _, d := range f.Decls {
+		switch x := d.(type) {
+		case *ast.GenDecl:
+			if x.Tok == token.CONST {
+				for _, sp := range x.Specs {
+					if vs, ok := sp.(*ast.ValueSpec); ok && len(vs.Names) == len(vs.Values) {
+						for i, n := range vs.Names {
+							consts[n.Name] = vs.Values[i]
+						}
+					}
+				}
+			}
+		case *ast.FuncDecl:
+			if x.Recv != nil || x.Body == nil {
+				continue
+			}
+			funcs[x.Name.Name] = x
+			if len(x.Body.List) == 1 {
+				if rs, ok := x.Body.List[0].(*ast.ReturnStmt); ok && len(rs.Results) == 1 {
+					if c, ok := rs.Results[0].(*ast.CallExpr); ok {
+						if id, ok := c.Fun.(*ast.Ident); ok && id.Name == "make" && len(c.Args) >= 1 {
+							if _, isChan := c.Args[0].(*ast.ChanType); isChan {
+								capN := 0
+								if len(c.Args) >= 2 {
+									if bl, ok := c.Args[1].(*ast.BasicLit); ok {
+										capN, _ = strconv.Atoi(bl.Value)
+									}
+								}
+								chanMakers[x.Name.Name] = capN
+							}
+						}
+					}
+				}
+			}
+		}
 	}
 	// helper functions of the file that make the dial themselves (a plain call, not in a function literal, no go statement)
 	// and hand the connection back: `conn, err := helper(...)` in the client function is then the dial
@@ -185,6 +272,11 @@ func astClientFacts(file, sendFn, handlerFn string) (clientFacts, error) {
 								connVar = exprStr(x.Lhs[0])
 								cf.clientField = field
 							}
+							if id, ok := c.Fun.(*ast.Ident); ok && x.Tok == token.DEFINE && len(c.Args) == 0 {
+								if capN, isMaker := chanMakers[id.Name]; isMaker {
+									made[exprStr(x.Lhs[0])] = capN
+								}
+							}
 							if id, ok := c.Fun.(*ast.Ident); ok && id.Name == "make" && len(c.Args) >= 1 && x.Tok == token.DEFINE {
 								if _, isChan := c.Args[0].(*ast.ChanType); isChan {
 									capN := 0
@@ -226,16 +318,8 @@ func astClientFacts(file, sendFn, handlerFn string) (clientFacts, error) {
 							// <-time.After(N * time.Second)
 							if u, ok := s.X.(*ast.UnaryExpr); ok && u.Op == token.ARROW {
 								if call, ok := u.X.(*ast.CallExpr); ok && exprStr(call.Fun) == "time.After" && len(call.Args) == 1 {
-									if be, ok := call.Args[0].(*ast.BinaryExpr); ok && be.Op == token.MUL {
-										if bl, ok := be.X.(*ast.BasicLit); ok {
-											n, _ := strconv.Atoi(bl.Value)
-											switch exprStr(be.Y) {
-											case "time.Second":
-												cf.timeoutMs = n * 1000
-											case "time.Millisecond":
-												cf.timeoutMs = n
-											}
-										}
+									if d := durationMs(call.Args[0], consts, 0); d > 0 {
+										cf.timeoutMs = d
 									}
 								}
 							}
@@ -305,16 +389,8 @@ func astClientFacts(file, sendFn, handlerFn string) (clientFacts, error) {
 						case *ast.ExprStmt:
 							if u, ok := st.X.(*ast.UnaryExpr); ok && u.Op == token.ARROW {
 								if call, ok := u.X.(*ast.CallExpr); ok && exprStr(call.Fun) == "time.After" && len(call.Args) == 1 {
-									if be, ok := call.Args[0].(*ast.BinaryExpr); ok && be.Op == token.MUL {
-										if bl, ok := be.X.(*ast.BasicLit); ok {
-											n, _ := strconv.Atoi(bl.Value)
-											switch exprStr(be.Y) {
-											case "time.Second":
-												ms = n * 1000
-											case "time.Millisecond":
-												ms = n
-											}
-										}
+									if d := durationMs(call.Args[0], consts, 0); d > 0 {
+										ms = d
 									}
 								}
 							}
@@ -328,27 +404,41 @@ func astClientFacts(file, sendFn, handlerFn string) (clientFacts, error) {
 			}
 		case handlerFn:
 			sends, guarded := 0, 0
+			// the handler's own body and the bodies of the file's plain functions it calls (one level)
+			bodies := []ast.Node{fd.Body}
 			ast.Inspect(fd.Body, func(n ast.Node) bool {
-				switch x := n.(type) {
-				case *ast.SendStmt:
-					sends++
-				case *ast.SelectStmt:
-					hasDefault := false
-					for _, c := range x.Body.List {
-						if c.(*ast.CommClause).Comm == nil {
-							hasDefault = true
-						}
-					}
-					if hasDefault {
-						for _, c := range x.Body.List {
-							if _, ok := c.(*ast.CommClause).Comm.(*ast.SendStmt); ok {
-								guarded++
-							}
+				if c, ok := n.(*ast.CallExpr); ok {
+					if id, ok := c.Fun.(*ast.Ident); ok {
+						if h, ok := funcs[id.Name]; ok && h != fd {
+							bodies = append(bodies, h.Body)
 						}
 					}
 				}
 				return true
 			})
+			for _, body := range bodies {
+				ast.Inspect(body, func(n ast.Node) bool {
+					switch x := n.(type) {
+					case *ast.SendStmt:
+						sends++
+					case *ast.SelectStmt:
+						hasDefault := false
+						for _, c := range x.Body.List {
+							if c.(*ast.CommClause).Comm == nil {
+								hasDefault = true
+							}
+						}
+						if hasDefault {
+							for _, c := range x.Body.List {
+								if _, ok := c.(*ast.CommClause).Comm.(*ast.SendStmt); ok {
+									guarded++
+								}
+							}
+						}
+					}
+					return true
+				})
+			}
 			cf.nonBlocking = sends > 0 && sends == guarded
 			// func H(ch chan …, from diam.Conn) diam.HandlerFunc { return func(c diam.Conn, m *diam.Message) { if c != from { return } … } }
 			handlerChecks = false
@@ -360,6 +450,15 @@ func astClientFacts(file, sendFn, handlerFn string) (clientFacts, error) {
 						return true
 					}
 					c := lit.Type.Params.List[0].Names[0].Name
+					// the same test the other way round: the whole body is `if c == from { … }`
+					if ifs, ok := lit.Body.List[0].(*ast.IfStmt); ok && ifs.Init == nil && ifs.Else == nil && len(lit.Body.List) == 1 {
+						if be, ok := ifs.Cond.(*ast.BinaryExpr); ok && be.Op == token.EQL {
+							l, r := exprStr(be.X), exprStr(be.Y)
+							if (l == c && r == from) || (l == from && r == c) {
+								handlerChecks = true
+							}
+						}
+					}
 					if ifs, ok := lit.Body.List[0].(*ast.IfStmt); ok && ifs.Init == nil && ifs.Else == nil {
 						if be, ok := ifs.Cond.(*ast.BinaryExpr); ok && be.Op == token.NEQ {
 							l, r := exprStr(be.X), exprStr(be.Y)
